@@ -121,6 +121,12 @@ def templates(tier, seed):
         for gap in ("", " 2"):
             for mode in ("default", "inside"):
                 tds.append(dict(fam="textref", ref=ref, gap=gap, mode=mode))
+        # an explicit text-loc is the author's: the one derived from the reference is only a default
+        for explicit in ("t", "bl", "c", "r"):
+            tds.append(dict(fam="textref-explicit", ref=ref, explicit=explicit))
+    for form in ("var-x", "var-xy", "expr-y", "ref-x"):
+        for loc in ("r", "tl", "c", "b"):
+            tds.append(dict(fam="textcontent-coords", form=form, loc=loc))
     return tds
 
 
@@ -190,6 +196,47 @@ def build_textref(td, wrong):
     return Template(f"textref/{ref}/{gap.strip()}/{mode}", [d0, d1], vars_, check, family="textref", role="C19/textref", cap=4)
 
 
+def build_textref_explicit(td, wrong):
+    """<text xy="#z@LOC" text-loc="E">: placed like a text at that point with text-loc E (the reference fixes the point only)"""
+    from vlib.twin import compare_outputs
+    ref, E = td["ref"], td["explicit"]
+    vars_ = [(3, *P), (4, *P), (20, *S), (10, *S)]
+    z = '<rect id="z" xy="[[0]] [[1]]" wh="[[2]] [[3]]"/>'
+    d0 = f'<svg>{z}<text xy="#z{ref}" text-loc="{E}" text="hi"/></svg>'
+    # the twin: the same point reached through a phantom point element, so that no location can be derived for the text itself
+    E2 = {"t": "b", "bl": "tr", "c": "l", "r": "t"}[E] if wrong else E
+    d1 = f'<svg>{z}<point id="pp" xy="#z{ref}"/><text xy="#pp" text-loc="{E2}" text="hi"/></svg>'
+
+    def check(r):
+        if r.docs[1]["status"] != "ok":
+            raise RuntimeError("twin rejected: " + r.docs[1]["msg"][:200])
+        if r.docs[0]["status"] != "ok":
+            return [Obl("transform-ok", FAIL, ground=True, note=r.docs[0]["msg"][:200])]
+        return compare_outputs(Out(r.docs[0]["output"]), Out(r.docs[1]["output"]))
+    return Template(f"textref-explicit/{ref}/{E}", [d0, d1], vars_, check, family="textref", role="C19/textref", cap=4)
+
+
+def build_textcontent_coords(td, wrong):
+    """<text> with character content whose x / y come from a variable, an expression or an element reference: the same
+    generated text as with the numbers written out"""
+    from vlib.twin import compare_outputs
+    form, loc = td["form"], td["loc"]
+    vars_ = [(4, *P), (7, *P)]
+    pre = '<var a="[[0]]" b="[[1]]"/><rect id="z" xy="[[0]] 30" wh="5 6"/>'
+    xy = {"var-x": 'x="$a" y="[[1]]"', "var-xy": 'x="$a" y="$b"', "expr-y": 'x="[[0]]" y="{{$b + 0}}"', "ref-x": 'x="#z~x" y="[[1]]"'}[form]
+    locw = {"r": "l", "tl": "br", "c": "t", "b": "t"}[loc] if wrong else loc
+    d0 = f'<svg>{pre}<text {xy} text-loc="{loc}">lbl</text></svg>'
+    d1 = f'<svg>{pre}<text x="[[0]]" y="[[1]]" text-loc="{locw}">lbl</text></svg>'
+
+    def check(r):
+        if r.docs[1]["status"] != "ok":
+            raise RuntimeError("twin rejected: " + r.docs[1]["msg"][:200])
+        if r.docs[0]["status"] != "ok":
+            return [Obl("transform-ok", FAIL, ground=True, note=r.docs[0]["msg"][:200])]
+        return compare_outputs(Out(r.docs[0]["output"]), Out(r.docs[1]["output"]))
+    return Template(f"textcontent-coords/{form}/{loc}", [d0, d1], vars_, check, family="textcontent-coords", role="C19/textcontent", cap=4)
+
+
 def twins(tier, seed):
     return [dict(fam="place", kind="rect", loc="tl", mode="default", off="sym", dxy="dx+dy", vert=False, lines=1, carrier="attr"),
             dict(fam="multiline", kind="line", loc="b", mode="default", off="default", dxy="none", vert=False, lines=3, carrier="attr", lsp="sym"),
@@ -201,6 +248,10 @@ def build(td, wrong=False):
         return build_attrs(td, wrong)
     if td["fam"] == "textref":
         return build_textref(td, wrong)
+    if td["fam"] == "textref-explicit":
+        return build_textref_explicit(td, wrong)
+    if td["fam"] == "textcontent-coords":
+        return build_textcontent_coords(td, wrong)
     kind = td["kind"]
     sm, vars_, vbox, visible = shape_markup(kind, 0)
     vars_ = list(vars_)
